@@ -3,6 +3,7 @@
 package rueidis
 
 import (
+	"bytes"
 	"context"
 	"fmt"
 	"math/rand/v2"
@@ -76,6 +77,42 @@ func (e *env) execCall(cl Client, cs CallSpec, ctx context.Context, rec *sched.C
 		r.Res = []Res{toRes(cl.Do(ctx, buildSub(cl.B(), cs.Cmds[0].Argv)))}
 	case "close":
 		cl.Close()
+	case "stream", "mstream":
+		var st RedisResultStream
+		if cs.Kind == "stream" {
+			st = cl.DoStream(ctx, buildCmd(cl.B(), cs.Cmds[0]))
+		} else {
+			list := make(Commands, 0, len(cs.Cmds))
+			for _, c := range cs.Cmds {
+				list = append(list, buildCmd(cl.B(), c))
+			}
+			st = cl.DoMultiStream(ctx, list...)
+		}
+		for st.HasNext() {
+			var w bytes.Buffer
+			_, err := st.WriteTo(&w)
+			rr := Res{V: resp.Bulk(w.String()), Text: w.String()}
+			if err != nil {
+				rr.Err, rr.ErrKind = err.Error(), errKind(err)
+				if _, ok := err.(*RedisError); ok {
+					rr.ErrKind = "redis"
+				}
+			}
+			r.Res = append(r.Res, rr)
+		}
+		if err := st.Error(); err != nil && err.Error() != "EOF" && len(r.Res) == 0 {
+			r.Err, r.ErrK = err.Error(), errKind(err)
+		}
+	case "dedicated":
+		err := cl.Dedicated(func(dc DedicatedClient) error {
+			for _, c := range cs.Cmds {
+				r.Res = append(r.Res, toRes(dc.Do(ctx, buildCmd(dc.B(), c))))
+			}
+			return nil
+		})
+		if err != nil {
+			r.Err, r.ErrK = err.Error(), errKind(err)
+		}
 	default:
 		panic("execCall: unknown kind " + cs.Kind)
 	}
